@@ -128,12 +128,16 @@ def parse_guard(test):
     """
     if isinstance(test, ast.BoolOp) and isinstance(test.op, ast.And):
         out = []
+        known = 0
         for v in test.values:
             sub = parse_guard(v)
             if sub is None:
-                return None
-            out.extend(sub)
-        return tuple(out)
+                # an extra, non-dispatch condition: keep the branch as a *conditional* handler of its keys
+                out.append(("unknown", unparse(v)))
+            else:
+                known += 1
+                out.extend(sub)
+        return tuple(out) if known else None
     if isinstance(test, ast.UnaryOp) and isinstance(test.op, ast.Not):
         sub = parse_guard(test.operand)
         return None if sub is None else (("not", sub),)
@@ -199,7 +203,15 @@ class Leaf:
         return f"Leaf({self.conds}, line {self.lineno})"
 
 
-def dispatch_leaves(stmts, conds=(), prelude=(), guard=parse_guard):
+def parse_guard_strict(test):
+    """parse_guard, but a test with extra non-dispatch conjuncts is not a dispatch guard"""
+    g = parse_guard(test)
+    if g is None or any(a[0] == "unknown" for a in g):
+        return None
+    return g
+
+
+def dispatch_leaves(stmts, conds=(), prelude=(), guard=parse_guard_strict):
     """Flatten nested if/elif/else dispatch into ordered leaves (source order == priority order)."""
     out = []
     pre = list(prelude)
@@ -256,6 +268,20 @@ def eval_atom(atom, env):
         k = env.get("kind")
         return None if k is None else k in atom[2]
     return None
+
+
+def candidate_leaves(leaves, env):
+    """All leaves that may handle env: conditional handlers (with unknown extra conditions) in priority order, up to
+    and including the first leaf that definitely matches."""
+    out = []
+    for lf in leaves:
+        vals = [eval_atom(a, env) for a in lf.conds]
+        if any(v is False for v in vals):
+            continue
+        out.append(lf)
+        if all(v is True for v in vals):
+            break
+    return out
 
 
 def select_leaf(leaves, env, unknown_as=False):
@@ -338,6 +364,16 @@ class Template:
 
     def skeleton(self):
         return self.text("{{{}}}")
+
+    def text_with(self, subs):
+        """text with some holes (by index) replaced by literal strings, the others by __Hn__ identifiers"""
+        out = []
+        for p in self.parts:
+            if isinstance(p, Hole):
+                out.append(subs[p.idx] if p.idx in subs else f"__H{p.idx}__")
+            else:
+                out.append(p)
+        return "".join(out)
 
     def as_expr(self):
         """Parse the generated-Python text with holes as identifiers; None if not an expression."""
